@@ -45,11 +45,14 @@ def chunk {α} (d : Nat) : Nat → List α → List (List α)
   | 0, _ => []
   | k + 1, l => l.take d :: chunk d k (l.drop d)
 
+/-- `BF::bits()`: bit length of the modulus. -/
+def bitLen (p : Nat) : Nat := Nat.log2 p + 1
+
 def bitsCmd (p : Nat) (full : Bool) (n x : Nat) (vs : List Nat) : String :=
   let xs : PF p := PF.ofNat x
   let bits : List (PF p) := vs.map PF.ofNat
-  let runOk := reconBits bits == xs
-  let acc := bitsAccept xs bits
+  let runOk := bitsRunOkFixed p (bitLen p) xs bits
+  let acc := bitsAcceptFixed p (bitLen p) xs bits
   let canon := bits == (canonBits n xs.val : List (PF p))
   let run := if runOk then "ok" else "WitnessConflict"
   if full then s!"bits run={run} accept={b01 acc} canon={b01 canon}"
